@@ -125,6 +125,13 @@ func jwsKind(c *proto.Case) interface{} {
 	if !ok {
 		return M{"class": "out-of-domain"}
 	}
+	if pm, ok := c.Body["prime"].(map[string]interface{}); ok {
+		// an earlier verification in the same process: the intact JWS under its own key
+		if pk, ok := jwkFromCase(pm["jwk"]); ok {
+			pc, _ := pm["compact"].(string)
+			_, _ = jwsutil.VerifyJWS(pc, pk)
+		}
+	}
 	res, err := jwsutil.VerifyJWS(compact, k)
 	if err != nil {
 		out["verify"] = "err"
